@@ -2734,8 +2734,20 @@ impl World {
         let kind: u8 = t[2].parse().unwrap();
         let (lo, hi): (i64, i64) = (t[3].parse().unwrap(), t[4].parse().unwrap());
         let owner_is_funder = t[5] == "1";
+        // 6th token (optional): the pool REQUIRES non-transferable positions (control flag set at pool creation from a token
+        // badge attribute): the plain / metadata opens are refused, the token-extensions open adds the NonTransferable extension
+        let nt = t.get(6).map_or(false, |x| *x == "1");
         let base = crate::hist_oracle::clone_world(self);
         let mut fx = Fx::from_world(&base, None, None, false, false, 1_000);
+        if nt {
+            let mut wp = fx.wp();
+            wp.reward_infos[1].extension = ::whirlpool::state::WhirlpoolExtensionSegmentPrimary::new(::whirlpool::state::WhirlpoolControlFlags::REQUIRE_NON_TRANSFERABLE_POSITION).to_bytes();
+            wp.reward_infos[2].extension = [0u8; 32];
+            let mut d = vec![];
+            wp.try_serialize(&mut d).unwrap();
+            let a = fx.bank.get(&fx.pool);
+            fx.bank.set(fx.pool, a.owner, a.lamports, d);
+        }
         let t22 = anchor_spl::token_2022::ID;
         let tokp = if kind == 1 || kind == 4 { anchor_spl::token::ID } else { t22 };
         let pmint = k(0x65, kind);
@@ -2881,6 +2893,29 @@ impl World {
                 let td = fx.bank.data(&ata);
                 if td.len() < 165 || token_amount(&td) != 1 || td[32..64] != owner.to_bytes() || td[0..32] != pmint.to_bytes() {
                     viols.push("C18 the owner's associated token account does not hold exactly one position token".to_string());
+                }
+                if nt && (kind == 1 || kind == 4) {
+                    viols.push("C18 a pool that requires non-transferable positions accepted an open without token extensions".to_string());
+                }
+                if kind == 2 || kind == 3 {
+                    // Token-2022 mint: base 82 bytes, padding to 165, account type at 165, TLV from 166; NonTransferable = type 9
+                    let md = fx.bank.data(&pmint);
+                    let mut has_nt = false;
+                    let mut o = 166;
+                    while o + 4 <= md.len() {
+                        let ty = u16::from_le_bytes([md[o], md[o + 1]]);
+                        let ln = u16::from_le_bytes([md[o + 2], md[o + 3]]) as usize;
+                        if ty == 0 {
+                            break;
+                        }
+                        if ty == 9 {
+                            has_nt = true;
+                        }
+                        o += 4 + ln;
+                    }
+                    if has_nt != nt {
+                        viols.push(format!("C18 the position mint {} the NonTransferable extension although the pool {} non-transferable positions", if has_nt { "carries" } else { "lacks" }, if nt { "requires" } else { "does not require" }));
+                    }
                 }
                 if kind == 4 {
                     // the metadata account the (stand-in) Metaplex program was asked to create: for THIS mint, with the
